@@ -32,6 +32,13 @@
 (*    it is a function of the state, `LoadOne` / `SelFold`, not a variable, *)
 (*    so the properties below speak about EVERY get / select possible in a  *)
 (*    state)                                                                *)
+(*   bc          (UseBC) the bytecode cache configured next to the template *)
+(*               cache: name -> [sum, code] | NoVal.  A (re)load makes a    *)
+(*               bucket keyed by the name with the checksum of the CURRENT  *)
+(*               source; the stored entry is used only under that checksum, *)
+(*               otherwise the source is compiled and the entry replaced    *)
+(*               (BCLoad).  Shared with overlays; observable: hit / miss /  *)
+(*               dump events and the stored entries.                        *)
 (*   rank        ghost: names in the order of their last *use* by the      *)
 (*               cache (a lookup that finds the name cached, or a store).  *)
 (*               Maintained without any reference to eviction, so that     *)
@@ -53,11 +60,16 @@ CONSTANTS Names,       \* template names, e.g. {"a", "b", "c"}
           KindSet,     \* loader kinds explored, a subset of Kinds
           ReloadSet,   \* values of auto_reload explored, a subset of BOOLEAN
           NoVal,       \* "not cached" (a model value)
-          EmitGraph    \* TRUE: print every transition as a JSON line (graph export for the replay)
+          EmitGraph,   \* TRUE: print every transition as a JSON line (graph export for the replay)
+          UseBC        \* Environment(bytecode_cache=...): a bytecode cache sits between loader and compiler
 
-VARIABLES kind, autoReload, src, mapping, order, rank
+VARIABLES kind, autoReload, src, mapping, order, rank,
+          bc           \* the bytecode cache: name -> stored entry [sum, code] or NoVal
+                       \*   sum   the source version whose checksum the entry carries
+                       \*   code  the source version the stored code object was compiled from
+                       \* (shared by an environment and its overlays; stays empty when ~UseBC)
 
-vars == <<kind, autoReload, src, mapping, order, rank>>
+vars == <<kind, autoReload, src, mapping, order, rank, bc>>
 
 Absent == 0
 Versions == 1..NVersions
@@ -65,6 +77,8 @@ Kinds == {"dict", "fnstr", "fntriple", "fs"}
 ASSUME KindSet \subseteq Kinds /\ ReloadSet \subseteq BOOLEAN
 StampKinds == {"fntriple", "fs"}
 Entry == [v : Versions, fresh : BOOLEAN]
+BCEntry == [sum : Versions, code : Versions]
+ASSUME UseBC \in BOOLEAN
 
 \* the dict never evicts; give the (unused) LRU instance room for every name
 EffCap == IF CacheSize < 0 THEN Cardinality(Names) ELSE CacheSize
@@ -88,6 +102,7 @@ Init ==
     /\ mapping = [n \in Names |-> NoVal]
     /\ order = <<>>
     /\ rank = <<>>
+    /\ bc = [n \in Names |-> NoVal]
 
 (* -- the loader's up-to-date check ------------------------------------------ *)
 HasUptodate == kind # "fnstr"
@@ -108,30 +123,48 @@ CSet(m, o, n, e) ==    \* self.cache[key] = template
          THEN [m |-> [m EXCEPT ![n] = e], o |-> IF m[n] # NoVal THEN o ELSE Append(o, n)]
          ELSE [m |-> m, o |-> o]
 
+\* BaseLoader.load(n) after get_source succeeded, shaped like the code: the bucket of n is
+\* made with the checksum of the CURRENT source; a stored entry is taken only when it carries
+\* that checksum (Bucket.load_bytecode resets otherwise); with no code in the bucket the
+\* current source is compiled and the bucket is written back.
+\*   [b: bytecode cache afterwards, code: the version whose code the template runs,
+\*    ops: what the bytecode cache saw -- <<"hit", n>> | <<"miss", n>>, <<"dump", n>>]
+BCLoad(b, n) ==
+    IF ~UseBC THEN [b |-> b, code |-> src[n], ops |-> <<>>]
+    ELSE IF b[n] # NoVal /\ b[n].sum = src[n]
+         THEN [b |-> b, code |-> b[n].code, ops |-> << <<"hit", n>> >>]
+         ELSE [b |-> [b EXCEPT ![n] = [sum |-> src[n], code |-> src[n]]], code |-> src[n],
+               ops |-> << <<"miss", n>>, <<"dump", n>> >>]
+
 \* one Environment._load_template(n):
-\*   [m, o: cache afterwards, res, loads: names asked of the loader, used: n was used in the cache]
-LoadOne(m, o, n) ==
+\*   [m, o: cache afterwards, b: bytecode cache afterwards, res, loads: names asked of the loader,
+\*    bcops: what the bytecode cache saw, used: n was used in the cache]
+LoadOne(m, o, b, n) ==
     LET cached == CacheSize # 0 /\ m[n] # NoVal
         g == CGet(m, o, n)
     IN  IF cached /\ (~autoReload \/ UpToDate(n, m[n]))
-        THEN [m |-> g.m, o |-> g.o, res |-> Render(n, m[n].v), loads |-> <<>>, used |-> TRUE]
+        THEN [m |-> g.m, o |-> g.o, b |-> b, res |-> Render(n, m[n].v), loads |-> <<>>, bcops |-> <<>>, used |-> TRUE]
         ELSE IF src[n] = Absent
         THEN \* loader raises TemplateNotFound; a stale entry stays where the lookup left it
-             [m |-> g.m, o |-> g.o, res |-> NotFound(n), loads |-> <<n>>, used |-> cached]
-        ELSE LET s == CSet(g.m, g.o, n, [v |-> src[n], fresh |-> TRUE]) IN
-             [m |-> s.m, o |-> s.o, res |-> Render(n, src[n]), loads |-> <<n>>, used |-> CacheSize # 0]
+             [m |-> g.m, o |-> g.o, b |-> b, res |-> NotFound(n), loads |-> <<n>>, bcops |-> <<>>, used |-> cached]
+        ELSE LET c == BCLoad(b, n)
+                 s == CSet(g.m, g.o, n, [v |-> c.code, fresh |-> TRUE]) IN
+             [m |-> s.m, o |-> s.o, b |-> c.b, res |-> Render(n, c.code), loads |-> <<n>>, bcops |-> c.ops,
+              used |-> CacheSize # 0]
 
 Use(rk, n, used) == IF used THEN L!Promote(rk, n) ELSE rk
 
 \* select_template(ns): the first name that loads wins, every attempt goes through the cache
-RECURSIVE SelFold(_, _, _, _, _)
-SelFold(m, o, rk, ns, loads) ==
-    IF ns = <<>> THEN [m |-> m, o |-> o, rk |-> rk, res |-> NoneFound, loads |-> loads]
-    ELSE LET r == LoadOne(m, o, Head(ns))
+RECURSIVE SelFold(_, _, _, _, _, _)
+SelFold(m, o, b, rk, ns, loads) ==
+    IF ns = <<>> THEN [m |-> m, o |-> o, b |-> b, rk |-> rk, res |-> NoneFound, loads |-> loads, bcops |-> <<>>]
+    ELSE LET r == LoadOne(m, o, b, Head(ns))
              rk2 == Use(rk, Head(ns), r.used)
          IN  IF r.res[1] = "render"
-             THEN [m |-> r.m, o |-> r.o, rk |-> rk2, res |-> r.res, loads |-> loads \o r.loads]
-             ELSE SelFold(r.m, r.o, rk2, Tail(ns), loads \o r.loads)
+             THEN [m |-> r.m, o |-> r.o, b |-> r.b, rk |-> rk2, res |-> r.res, loads |-> loads \o r.loads,
+                   bcops |-> r.bcops]
+             ELSE \* a name that does not load never reaches the bytecode cache
+                  SelFold(r.m, r.o, r.b, rk2, Tail(ns), loads \o r.loads)
 
 (* -- actions ------------------------------------------------------------------ *)
 \* With EmitGraph every transition is printed as one JSON line
@@ -139,28 +172,30 @@ SelFold(m, o, rk, ns, loads) ==
 \* (states projected by ViewRec: without the ghost).  Run with VIEW View the
 \* printed lines are exactly the edges of the reachable state graph; the replay driver
 \* walks the real Environment along every one of them.
-ViewRec == [k |-> kind, ar |-> autoReload, src |-> src, m |-> mapping, o |-> order]
+ViewRec == [k |-> kind, ar |-> autoReload, src |-> src, m |-> mapping, o |-> order, bc |-> bc]
 \* what Template.is_up_to_date answers for every cached template (derived, not state)
 Fresh == [n \in {x \in Names : mapping[x] # NoVal} |-> UpToDate(n, mapping[n])]
-Emit(op, res, loads) ==
-    EmitGraph => PrintT(ToJson([s |-> ViewRec, a |-> op, res |-> res, loads |-> loads,
+Emit(op, res, loads, bcops) ==
+    EmitGraph => PrintT(ToJson([s |-> ViewRec, a |-> op, res |-> res, loads |-> loads, bcops |-> bcops,
                                 t |-> ViewRec', u |-> Fresh']))
 
 Get(n) ==                                   \* env.get_template(n).render()
-    LET r == LoadOne(mapping, order, n) IN
+    LET r == LoadOne(mapping, order, bc, n) IN
     /\ mapping' = r.m
     /\ order' = r.o
+    /\ bc' = r.b
     /\ rank' = Use(rank, n, r.used)
     /\ UNCHANGED <<kind, autoReload, src>>
-    /\ Emit(<<"get", n>>, r.res, r.loads)
+    /\ Emit(<<"get", n>>, r.res, r.loads, r.bcops)
 
 Select(ns) ==                               \* env.select_template(ns).render()
-    LET r == SelFold(mapping, order, rank, ns, <<>>) IN
+    LET r == SelFold(mapping, order, bc, rank, ns, <<>>) IN
     /\ mapping' = r.m
     /\ order' = r.o
+    /\ bc' = r.b
     /\ rank' = r.rk
     /\ UNCHANGED <<kind, autoReload, src>>
-    /\ Emit(<<"select", ns>>, r.res, r.loads)
+    /\ Emit(<<"select", ns>>, r.res, r.loads, r.bcops)
 
 \* the loader's stamp for n changes: a cached entry of n is no longer fresh
 Staled(n) ==
@@ -171,8 +206,8 @@ Staled(n) ==
 Change(n, v, what) ==
     /\ src' = [src EXCEPT ![n] = v]
     /\ mapping' = Staled(n)
-    /\ UNCHANGED <<kind, autoReload, order, rank>>
-    /\ Emit(<<what, n, v>>, NoRes, <<>>)
+    /\ UNCHANGED <<kind, autoReload, order, rank, bc>>
+    /\ Emit(<<what, n, v>>, NoRes, <<>>, <<>>)
 
 Modify(n, v) == src[n] # Absent /\ v # src[n] /\ Change(n, v, "modify")   \* new source text
 Delete(n) == src[n] # Absent /\ Change(n, Absent, "delete")               \* template removed
@@ -181,13 +216,15 @@ Touch(n) ==                                 \* stamp changes, text does not (os.
     kind \in StampKinds /\ src[n] # Absent /\ Change(n, src[n], "touch")
 
 \* env.overlay(): the environment is replaced by an overlay of itself; the
-\* overlay starts with an EMPTY cache of the same kind and capacity
+\* overlay starts with an EMPTY cache of the same kind and capacity; the bytecode cache object
+\* is shared with the overlay and keeps what it holds (like a restarted process over the
+\* same bytecode cache directory)
 Overlay ==
     /\ mapping' = [n \in Names |-> NoVal]
     /\ order' = <<>>
     /\ rank' = <<>>
-    /\ UNCHANGED <<kind, autoReload, src>>
-    /\ Emit(<<"overlay">>, NoRes, <<>>)
+    /\ UNCHANGED <<kind, autoReload, src, bc>>
+    /\ Emit(<<"overlay">>, NoRes, <<>>, <<>>)
 
 Next ==
     \/ \E n \in Names : Get(n) \/ Delete(n) \/ Touch(n)
@@ -202,14 +239,16 @@ Spec == Init /\ [][Next]_vars
 \* "what a get shows" is a state invariant quantified over all gets possible in the state.
 Present == {n \in Names : mapping[n] # NoVal}
 SeqSet(s) == {s[i] : i \in 1..Len(s)}
-GetR(n) == LoadOne(mapping, order, n)
-SelR(ns) == SelFold(mapping, order, rank, ns, <<>>)
+GetR(n) == LoadOne(mapping, order, bc, n)
+SelR(ns) == SelFold(mapping, order, bc, rank, ns, <<>>)
 
 TypeOK ==
     /\ kind \in Kinds /\ autoReload \in BOOLEAN
     /\ src \in [Names -> Versions \cup {Absent}]
     /\ mapping \in [Names -> Entry \cup {NoVal}]
     /\ order \in Seq(Names)
+    /\ bc \in [Names -> BCEntry \cup {NoVal}]
+    /\ ~UseBC => \A n \in Names : bc[n] = NoVal
     /\ SeqSet(order) = Present /\ Len(order) = Cardinality(Present)
 
 \* what "the current source" of name n renders to
@@ -277,6 +316,22 @@ C25_SelectFindsSomething ==
 
 \* the freshness flag is only ever cleared for loaders whose check compares a stamp
 C25_FreshFlag == \A n \in Present : kind \notin StampKinds => mapping[n].fresh
+
+\* the bytecode cache never changes what is rendered: whatever a (re)load takes out of it was
+\* compiled from the source it is keyed by, so every template that is (re)loaded -- by any
+\* environment sharing the bytecode cache, with any template cache size -- runs the code of the
+\* CURRENT source (the template cache above it would otherwise serve old code as "fresh")
+C25_BytecodeOfItsSource == \A n \in Names : bc[n] # NoVal => bc[n].code = bc[n].sum
+C25_LoadRunsCurrentSource ==
+    \A n \in Names : LET r == GetR(n) IN
+        (r.loads = <<n>> /\ r.res[1] = "render") => r.res = Current(n)
+\* an entry is reused exactly when it was stored for the current source; a changed source is
+\* recompiled and the entry replaced
+C25_BytecodeReuse ==
+    UseBC => \A n \in Names : LET r == GetR(n) IN
+        (r.loads = <<n>> /\ r.res[1] = "render") =>
+            /\ (r.bcops = << <<"hit", n>> >>) <=> (bc[n] # NoVal /\ bc[n].sum = src[n])
+            /\ r.b[n] = [sum |-> src[n], code |-> src[n]]
 
 \* the graph exported for the replay ignores the ghost
 View == ViewRec
